@@ -7,6 +7,7 @@
 //!   frombase58 <str>    ByronAddress::from_base58     -> ok <payload> <crc> | err <class>
 //!   fromstr <str>       Address::from_str             -> ok byron <payload> <crc> | not-byron
 //!   corpus <hex>        as frombytes, for an address taken from the chain data in test_data (must be accepted)
+//!   decode <hex>        ByronAddress::new(<hex>, 0).decode() -> ok <root28> <addrtype> <attr>* | err <class>
 //!   crc <hex>           CRC-32/ISO-HDLC by the harness' bitwise reference (ties the Lean definition to it) -> ok <n>
 //! Oracles: `crc-unchecked entry=<e>` = an entry point returned an address whose checksum does not match
 //! its payload (checked with an independent bitwise CRC); `roundtrip <what>` = a built address does not
@@ -72,6 +73,20 @@ fn parse_payload(op: &[String]) -> Option<AddressPayload> {
         else { return None; }
     }
     Some(AddressPayload { root: Hash::new(root), attributes: attrs.into(), addrtype: ty })
+}
+
+fn show_payload(p: &AddressPayload) -> String {
+    let ty = match p.addrtype { AddrType::PubKey => 0, AddrType::Script => 1, AddrType::Redeem => 2, AddrType::Other(x) => x };
+    let mut s = format!("{} {}", hex(p.root.as_ref()), ty);
+    for a in p.attributes.iter() {
+        match a {
+            AddrAttrProperty::AddrDistr(AddrDistr::BootstrapEraDistribution) => s += " d1",
+            AddrAttrProperty::AddrDistr(AddrDistr::SingleKeyDistribution(k)) => s += &format!(" d0:{}", hex(k.as_ref())),
+            AddrAttrProperty::DerivationPath(b) => s += &format!(" p:{}", hex(b)),
+            AddrAttrProperty::NetworkTag(b) => s += &format!(" n:{}", hex(b)),
+        }
+    }
+    s
 }
 
 fn gen_build(rng: &mut Rng) -> String {
@@ -189,6 +204,9 @@ pub fn generate(g: &mut Gen) {
                 if rng.chance(1, 2) && !bad.is_empty() { ops.push(format!("fromstr {}", b58enc(&bad))); }
             }
         }
+        // the payload structure back out of the address (`ByronAddress::decode`), intact and with one byte changed
+        ops.push(format!("decode {}", hex(&good[pstart..pend])));
+        if rng.chance(1, 3) && pend > pstart { let mut pl = good[pstart..pend].to_vec(); let k = rng.below(pl.len() as u64) as usize; pl[k] = rng.next() as u8; ops.push(format!("decode {}", hex(&pl))); }
         let h = hex(&good);
         ops.push(format!("frombytes {h}")); ops.push(format!("addrbytes {h}")); ops.push(format!("addrhex {h}"));
         ops.push(format!("frombase58 {}", b58enc(&good))); ops.push(format!("fromstr {}", b58enc(&good)));
@@ -202,6 +220,15 @@ pub fn run_case(case: &Case, out: &mut Out) {
     for op in &case.ops {
         let arg = op.get(1).cloned().unwrap_or_default();
         match op[0].as_str() {
+            "decode" => match unhex(&arg) {
+                Some(b) => match guard(|| ByronAddress::new(&b, 0).decode()) {
+                    None => out.panic(),
+                    Some(Ok(p)) => out.ok(show_payload(&p)),
+                    Some(Err(Error::InvalidByronCbor(e))) => out.err(err_class(&e)),
+                    Some(Err(_)) => out.err("other"),
+                },
+                None => out.reply("bad-op".into()),
+            },
             "crc" => match unhex(&arg) {
                 // reference value; pallas' own checksum is compared through the address bytes of every `build`
                 Some(b) => out.ok(crc32_ref(&b).to_string()),
